@@ -149,6 +149,9 @@ class World:
             # the bulk interface of one graph view, handed quads that name views of other graphs of the same store as well
             tgt = self.view(e["g"])
             quads = [v.triple(q) + ((self.ctx(q[3]) if (i + len(e["qs"])) % 2 else self.view(q[3])),) for i, q in enumerate(e["qs"])]
+            if e.get("how") == "equal_id":
+                # the graphs are named by identifiers that are equal to, not the very objects of, the target's
+                quads = [q[:3] + (Graph(store=q[3].store, identifier=type(q[3].identifier)(str(q[3].identifier))),) for q in quads]
             if e.get("how") == "batch":
                 from rdflib.graph import BatchAddGraph
                 with BatchAddGraph(tgt, batch_size=2, batch_addn=True) as b:
